@@ -29,6 +29,7 @@ func checkC17(r *Run) propMeta {
 	checkTrunkWrites(r)
 	checkTerminalAfterFilter(r, r.Pkg("ops"))
 	checkTrackerAfterFilter(r, r.Pkg("ops"))
+	checkEntityPointerIdentity(r, "C17-R7-entity-identity", r.Pkg("graph"), r.Pkg("ops"), r.Pkg("traversal"))
 	r.Floor("C17-R1-termination", 4)
 	r.Floor("C17-R2-join-cancel", 5)
 	r.Floor("C17-R3-pipe", 9)
